@@ -354,6 +354,8 @@ class _Run:
             return it[1][i]
         if isinstance(it, tuple) and it and it[0] in ("genexp", "listcomp") and len(it) == 3 and all(not conds for _i, conds in it[2]):
             ns = [self.known_len(g_it) for g_it, _c in it[2]]
+            if len(ns) == 1 and ns[0] is None:
+                ns = [i + 1]  # one generator of unknown length: element i is the element expression at its i-th item
             if all(n_ is not None and n_ > 0 for n_ in ns):
                 # element i of an unfiltered comprehension: its element expression with the generators' variables at
                 # the i-th combination (the last generator runs fastest)
@@ -588,6 +590,10 @@ class _Run:
             return ("ext", b[1] + "." + e.attr)
         if b[0] == "tuple" and len(b) > 2 and e.attr in b[2]:
             return b[1][b[2].index(e.attr)]  # field of a NamedTuple record
+        if b[0] == "tuple" and len(b) > 3:
+            m = self.prog.resolve_method(b[3], e.attr)
+            if m is not None and m.kind == "property":
+                return self.inline_call(m.key, (), (), e, b)  # a property defined on the record class
         return ("attr", b, e.attr)
 
     def e_Subscript(self, e, env):
@@ -808,7 +814,7 @@ class _Run:
                 if d is None:
                     raise AnalysisError("%s built without its field %s" % (f[1], n))
                 items[i] = self.eval(d, {})
-        return ("tuple", tuple(items), tuple(names))
+        return ("tuple", tuple(items), tuple(names), f[1])
 
     def _method_target(self, recv: V, name: str):
         fi = self.fstack[-1]
